@@ -64,6 +64,12 @@ func (s hsess) auditLines() []string {
 
 // readEvents turns the output file into items in file order; torn = lines that are not one
 // complete JSON event of a known type
+//
+// wantHost / wantMID: the node name and machine id every event of this daemon must carry as its target
+// (in-process: what the processors were constructed with; daemon: NODE_NAME and /etc/machine-id); an event
+// with another target, or a UserLogin whose account is not the one of its line, counts as torn as well
+var wantHost, wantMID = nodeName, machineID
+
 func readEvents(path string) (torn int, items []string) {
 	data, err := os.ReadFile(path)
 	if err != nil {
@@ -86,11 +92,19 @@ func readEvents(path string) (torn int, items []string) {
 			torn++
 			continue
 		}
+		if ev.Target["host"] != wantHost || ev.Target["machine-id"] != wantMID || ev.Component == "" {
+			torn++
+			continue
+		}
 		switch ev.Type {
 		case common.ActionLoginIdentifier:
 			if ev.Outcome != auditevent.OutcomeSucceeded {
 				// a failed login of the noise stream: identified by its port
 				items = append(items, fmt.Sprintf("F:%v", ev.Source.Extra["port"]))
+				continue
+			}
+			if ev.Subjects["loggedAs"] != "user"+ev.Subjects["pid"] {
+				torn++
 				continue
 			}
 			items = append(items, "L:"+ev.Subjects["pid"])
@@ -324,7 +338,13 @@ func runHandoffDaemon(ss []hsess, delaySshd, delayAudit int, noise int) string {
 	case <-d.exited:
 	case <-time.After(exitBound):
 	}
+	// the daemon takes its identity from the environment (NODE_NAME, set by startDaemon) and /etc/machine-id
+	wantHost = "node-1"
+	if b, err := os.ReadFile("/etc/machine-id"); err == nil {
+		wantMID = strings.TrimSpace(string(b))
+	}
 	t, items := readEvents(d.outPath)
+	wantHost, wantMID = nodeName, machineID
 	return fmt.Sprintf("T:%d|%s", t, strings.Join(items, ";"))
 }
 
